@@ -391,4 +391,27 @@ func propC10(j *Job) {
 	runCases(j, cases, func(spec *xferSpec) func(m *Sim, x *Exec, r *xferResult) {
 		return deliveryFinal(spec, false, monOpts{Flow: true})
 	})
+	// associations set up from out-of-band tokens, asymmetric receive buffers: the first
+	// flight is bounded by the window in the peer's token
+	var snap []xferCase
+	for _, mode := range modes {
+		for _, rb := range [][2]uint32{{0, 1500}, {1500, 0}, {3000, 1500}} {
+			a, b := withBase(mode.A, 1200, 0xFFFFFFFA, 4000), withBase(mode.B, 1200, 9, 4000)
+			a.Server, b.Server = false, false
+			a.RecvBuf, b.RecvBuf = rb[0], rb[1]
+			snap = append(snap, xferCase{Name: fmt.Sprintf("SNAP/%s/rb%d-%d", mode.Name, rb[0], rb[1]), K: 1,
+				Spec: &xferSpec{A: a, B: b, SNAP: true, Faults: faultSet{Drop: true}, Streams: []streamSpec{
+					{SID: 1, From: 0, Msgs: msgsOf([]int{900, 1000, 1100, 40})}, {SID: 2, From: 1, Msgs: msgsOf([]int{1000, 900, 30})}}}})
+		}
+	}
+	runCases(j, snap, func(spec *xferSpec) func(m *Sim, x *Exec, r *xferResult) {
+		win := func(c epCfg) uint32 {
+			if c.RecvBuf != 0 {
+				return c.RecvBuf
+			}
+			return initialRecvBufSize
+		}
+		return deliveryFinal(spec, false, monOpts{Flow: true, Snap: true, SnapARwnd: [2]uint32{win(spec.A), win(spec.B)},
+			SnapIL: [2]bool{!spec.A.NoInterleave, !spec.B.NoInterleave}, SnapZC: [2]bool{spec.A.ZeroChecksum, spec.B.ZeroChecksum}})
+	})
 }
